@@ -47,8 +47,10 @@ def _stride_form(value, defs):
         for x, y in ((a, b), (b, a)):
             if norm(x) == "alignment // 8":
                 n = y
-                if isinstance(n, ast.Name) and n.id in defs:
+                k = 0
+                while isinstance(n, ast.Name) and n.id in defs and k < 4:
                     n = defs[n.id]
+                    k += 1
                 return ("alignment // 8", norm(n))
     return None
 
